@@ -479,7 +479,9 @@ fn literal_case(src: &mut Src, ctx: &mut Ctx) -> Result<(), String> {
     ];
     // a library naming a few hundred layers (every name gets a layer of its own)
     let mut many = String::from("MACRO wide SIZE 1 BY 1 ; OBS ");
-    for k in 0..320 {
+    // (700 of them: should the import go into a layer set that already holds half of the names under numbers of
+    // the caller's choosing, more than 255 are still numbered by the importer)
+    for k in 0..700 {
         many.push_str(&format!("LAYER lay{} ; RECT 0 {} 1 {} ; ", k, k, k + 1));
     }
     many.push_str("END END wide END LIBRARY");
